@@ -18,7 +18,7 @@ which uses a structured syntax for representing conditional statements and belie
 import logging
 import os
 
-from antlr4 import CommonTokenStream, InputStream
+from antlr4 import CommonTokenStream, InputStream, Token
 from antlr4.error.ErrorListener import ErrorListener
 
 from inference.belief_base import BeliefBase
@@ -430,6 +430,11 @@ def parse_formula(string: str):
 
     # Parse formula rule
     tree = parser.formula()
+    # the formula rule does not end with EOF: reject anything left over after the formula
+    if tokens.LA(1) != Token.EOF:
+        raise Exception(
+            f"Syntax error: unexpected input after formula: '{tokens.LT(1).text}'"
+        )
     visitor = myVisitor()
     # Initialize sigcheck so visitVar can record variables without attribute errors
     visitor.sigcheck = []
@@ -488,6 +493,11 @@ def _getParseTree(ckbs_string):
     parser.addErrorListener(_ThrowingErrorListener())
 
     tree = parser.ckbs()
+    # the ckbs rule does not end with EOF: reject anything left over after the last block
+    if stream.LA(1) != Token.EOF:
+        raise Exception(
+            f"Syntax error: unexpected input after belief base: '{stream.LT(1).text}'"
+        )
     return tree
 
 
